@@ -33,6 +33,27 @@ except Exception:  # pragma: no cover
 MODELS = {}
 
 
+class SRange:
+    """range(start, stop[, step]) with symbolic bounds (step a positive constant) -- only consumed
+    by a for loop with an invariant."""
+
+    def __init__(self, start, stop, step=1):
+        if not isinstance(step, int) or step <= 0:
+            raise EngineError('range step must be a positive constant')
+        self.start, self.stop, self.step = start, stop, step
+
+    def length(self, it):
+        d = it.binop(ast.Sub(), self.stop, self.start)
+        if isinstance(d, int):
+            return max(0, (d + self.step - 1) // self.step)
+        if self.step != 1:
+            raise EngineError('symbolic range with a step')
+        return mk_int(z3.If(T(d) > 0, T(d), 0))
+
+    def at(self, it, i):
+        return it.binop(ast.Add(), self.start, it.binop(ast.Mult(), i, self.step))
+
+
 class EnumSeq:
     """enumerate(<list of symbolic length>) -- only consumed by a for loop with an invariant."""
 
@@ -173,6 +194,14 @@ def py_len(it, x):
         return mk_int(T(x.n))
     if isinstance(x, SVec):
         return len(x.slots)
+    if type(x).__name__ == 'SExt':
+        from . import ext as _ext
+        f = _ext.LEN.get(x.kind)
+        if f is None:
+            raise _I().PyRaise(TypeError, ('no len',))
+        return f(it, x)
+    if isinstance(x, (V.SMap, SRange)):
+        raise EngineError('len() of a lazy list')
     if isinstance(x, XStr):
         return x.length()
     if isinstance(x, SObj):
@@ -329,7 +358,9 @@ def _fromkeys(it, keys, value=None):
 @model(range)
 def _range(it, *a):
     if not all(isinstance(x, int) for x in a):
-        raise EngineError('range with symbolic bounds needs a loop contract')
+        if len(a) == 1:
+            return SRange(0, a[0])
+        return SRange(*a)
     return range(*a)
 
 
@@ -465,6 +496,50 @@ def _hasattr(it, o, n):
 @model(time.sleep)
 def _sleep(it, s):
     return None
+
+
+import threading as _threading
+import queue as _queue
+
+
+@model(_threading.Thread.__init__)
+def _thread_init(it, self, *a, **k):
+    return None
+
+
+@model(_threading.Thread.start)
+def _thread_start(it, self):
+    return None
+
+
+@model(_threading.Thread.join)
+def _thread_join(it, self, timeout=None):
+    return None
+
+
+@model(_threading.Thread.is_alive)
+def _thread_alive(it, self):
+    return mk_bool(it.ctx.fresh_bool('alive'))
+
+
+@model(_threading.Event)
+def _event(it):
+    from .ext import SExt
+    return SExt('event', {})
+
+
+@model(_queue.Queue)
+def _queue_new(it, *a):
+    from .ext import SExt
+    return SExt('queue', dict(out=SList([]), gets=SList([]), interruptible=False))
+
+
+@model(open)
+def _open(it, path, mode='r', *a, **k):
+    from .ext import SExt
+    if mode != 'w':
+        raise EngineError('open() is modelled for writing only')
+    return SExt('file', dict(out=SList([])))
 
 
 @model(json.dumps)
